@@ -307,13 +307,17 @@ fn point_case(ctx: &mut Ctx, wl: &str, case: u64, rng: &mut Rng) {
     let mut obj = Obj::new(&k);
     // half of the cone objects are "used": they have already been scaled at some other interior point with
     // some strategy (as in iteration k-1 of a solve), so that anything cached from that call would show
+    let (z_test, s_test) = (z.clone(), s.clone());
     let age = |o: &mut Obj, rng: &mut Rng| -> Option<&'static str> {
         if rng.bool(0.5) {
             return None;
         }
         let (m1, m2, m3) = (rng.logpos(-3.0, 3.0), rng.logpos(-3.0, 3.0), rng.logpos(-4.0, 2.0));
-        let z0 = vc::sample_interior(&ct, rng, true, m1, 0.3);
-        let s0 = vc::sample_interior(&ct, rng, false, m2, 0.3);
+        // (a third of the time at the very point under test, only mu differs: nothing may be skipped because "z has
+        // not moved")
+        let same_point = rng.bool(0.33);
+        let z0 = if same_point { z_test.clone() } else { vc::sample_interior(&ct, rng, true, m1, 0.3) };
+        let s0 = if same_point { s_test.clone() } else { vc::sample_interior(&ct, rng, false, m2, 0.3) };
         let strat = if rng.bool(0.6) { ScalingStrategy::PrimalDual } else { ScalingStrategy::Dual };
         let _ = o.update_scaling(&s0, &z0, m3, strat);
         Some(if matches!(strat, ScalingStrategy::PrimalDual) { "PrimalDual" } else { "Dual" })
